@@ -401,8 +401,8 @@ def build_case(ctx, d, k, uid):
         L = None
     else:
         L = list(itertools.islice(py_iter(d), k, None))
-        # thorough: most of the short streams get the full index and slice-bound grids
-        full = (not ctx.quick()) and len(L) <= 4 and ctx.rng.random() < 0.6
+        # thorough: all short streams get the full index and slice-bound grids
+        full = (not ctx.quick()) and len(L) <= 4
         obs = finite_observations(ctx, L, uid, full)
         final = Obs("unchanged", [], "list(s)", "list", "ok " + canon(L))
         kind = "finite"
